@@ -26,7 +26,19 @@ func genSent(c *RunCtx, g *Gen, name string) (*sent, bool) {
 		return nil, false
 	}
 	s.w = cloneBytes(b.Bytes())
+	recycleBuf(&b) // the harness's own scratch buffers are pooled too: whatever the library kept of this one is now junk
 	return s, true
+}
+
+// recycleBuf is what a buffer pool does with a buffer its owner is done with: the storage is
+// overwritten (here: every byte up to the capacity) and the buffer emptied.
+func recycleBuf(b *bytes.Buffer) {
+	x := b.Bytes()
+	x = x[:cap(x)]
+	for i := range x {
+		x[i] = 0xA5
+	}
+	b.Reset()
 }
 
 // expected is what a receiver must obtain: the original value, with the frame's
@@ -1416,7 +1428,7 @@ func safeString(v any) (s string, ok bool) {
 func init() {
 	register(&scenario{
 		Prop: "C16", Run: runC16, Level: "exploration", Quick: 800000, Thorough: 12000000,
-		Rule:        "one run = (decode side) a canonical message's bytes placed in a pooled buffer over a simulator-owned backing array, decoded, the result deep-copied (texts byte-copied), then the pool recycles the buffer: every byte of the array's capacity is overwritten, the buffer Reset and reused for other traffic which is decoded too; or (retained parts) an envelope decoded into twice while the application keeps the first body, with more traffic of that body's type decoded elsewhere: a body the library replaced must never change again; rarely preceded by 300-66000 earlier decodes of the type with other values (a long-lived process); or (encode side) a message encoded into a pooled buffer, the bytes snapshotted, then every list element, text and nested part of the message overwritten in place and bodies replaced, then another message encoded behind it. Oracles: decoded message == its copy after recycling; written bytes == snapshot after mutating the message and after the next encode. Non-trivial = the recycle/mutation actually changed memory and the oracle ran; distinct = distinct run fingerprints.",
+		Rule:        "one run = (decode side) a canonical message's bytes placed in a pooled buffer over a simulator-owned backing array, decoded, the result deep-copied (texts byte-copied), then the pool recycles the buffer: every byte of the array's capacity is overwritten, the buffer Reset and reused for other traffic which is decoded too; or (retained parts) an envelope decoded into twice while the application keeps the first body, with more traffic of that body's type decoded elsewhere: a body the library replaced must never change again; rarely preceded by 300-66000 earlier decodes of the type with other values (a long-lived process); or (encode side) a message encoded into a pooled buffer, the bytes snapshotted, then every list element, text and nested part of the message overwritten in place and bodies replaced, then another message encoded behind it, then (half of the runs) the output buffers taken back by the pool (overwritten, reset) and an equal message encoded again. Oracles: decoded message == its copy after recycling; written bytes == snapshot after mutating the message and after the next encode; an equal message encodes to the same bytes after the earlier output buffers were overwritten (given that it did so before they were). Non-trivial = the recycle/mutation actually changed memory and the oracle ran; distinct = distinct run fingerprints.",
 		Assumptions: []string{"Go strings are never written through; only simulator-owned arrays and the message's own slices are overwritten"},
 	})
 }
@@ -1434,6 +1446,7 @@ func runC16(c *RunCtx) {
 	}
 	c.Count("type."+name, 1)
 	c.LogValue("MESSAGE "+name, s.pre)
+	churned := false
 	churnRate := 8000
 	if c.Thorough {
 		churnRate = 2500
@@ -1451,6 +1464,7 @@ func runC16(c *RunCtx) {
 				tryDecode(newValue(name), &b)
 			}
 		}
+		churned = true
 		c.Fire("hist.long-process")
 		c.Logf("PROCESS HISTORY: %d earlier decodes of %s with other values", k, name)
 	}
@@ -1564,6 +1578,16 @@ func runC16(c *RunCtx) {
 		return
 	}
 	snap := cloneBytes(buf.Bytes())
+	if !churned && slack >= 0 {
+		// this value was encoded once before in this run (to obtain the wire bytes), into a scratch
+		// buffer that its owner has overwritten and reset since; no other library call happened in
+		// between, so the two encodings must be equal
+		c.Oracle("encoding-survives-recycling-of-earlier-output-buffers")
+		if !bytes.Equal(snap, s.w) {
+			c.Fail("C16/encoding-changed-by-buffer-reuse", name, "a %s was encoded, its output buffer overwritten and reset by its owner, and an equal message encoded again: the bytes differ (first difference at %d) — the library kept a view of the caller's output buffer", name, firstDiff(snap, s.w))
+			return
+		}
+	}
 	n := mutateInPlace(reflect.ValueOf(m).Elem(), t.Bulk())
 	if n > 0 {
 		c.Fire("app.mutate")
@@ -1588,6 +1612,26 @@ func runC16(c *RunCtx) {
 		if len(b) < len(snap) || !bytes.Equal(b[:len(snap)], snap) {
 			c.Fail("C16/bytes-changed-by-next-encode", name, "bytes of the first message changed when another message was encoded behind it")
 			return
+		}
+	}
+	// the pool takes the send buffer back: its storage is overwritten and reused.  An equal
+	// message encoded afterwards must come out as before - unless the library kept a view of the
+	// caller's buffer (a memoised frame image, a template) instead of a copy.  Control: the same
+	// value encoded once more BEFORE the recycling must already equal the first encoding
+	// (otherwise repeatability is broken without any buffer reuse: C06's subject, not this one's).
+	if t.Intn(2) == 0 {
+		var b0 bytes.Buffer
+		if r := tryEncode(Clone(s.pre), &b0); r.Panic == nil && r.Err == nil && bytes.Equal(b0.Bytes(), snap) {
+			recycleBuf(buf)
+			recycleBuf(&b0)
+			c.Fire("pool.recycle")
+			var b1 bytes.Buffer
+			r1 := tryEncode(Clone(s.pre), &b1)
+			c.Oracle("encoding-survives-recycling-of-earlier-output-buffers")
+			if r1.Panic != nil || r1.Err != nil || !bytes.Equal(b1.Bytes(), snap) {
+				c.Fail("C16/encoding-changed-by-buffer-reuse", name, "a %s was encoded twice with equal bytes; then the two output buffers were overwritten and reset by their owner; an equal message encoded afterwards gives different bytes (first difference at %d, err=%v panic=%v) — the library kept a view of a caller's output buffer", name, firstDiff(b1.Bytes(), snap), r1.Err, r1.Panic)
+				return
+			}
 		}
 	}
 	c.T.ObserveBytes(snap)
